@@ -783,10 +783,41 @@ class Gen:
                 h2.group = "lea"
                 self.out.append(h2)
 
+    def lea_label(self, lp: Production):
+        """lea <word reg>, <word data label>: the label nonterminal hands over phys(DS, offset of the label) (Verus unit
+        transfer::it_word_label); LEA must give back the label's 16-bit offset for EVERY DS, also when DS*16+offset wraps
+        at 1 MB, change no other register and touch no memory (fenced machine)."""
+        b = prelude("P", False, "        let in_off: u16 = kani::any();\n        let in_k: u8 = kani::any();\n        kani::assume(in_k < 12);\n")
+        b += f"        let m: usize = {S}::phys(old.ds, in_off);\n"
+        largs = []
+        for s in lp.syms:
+            if is_term(s):
+                largs.append('(0, "", 0)')
+            elif s == "word_reg":
+                largs.append(f"(0, {V}::word_reg_of(in_k), 0)")
+            elif s == "word_label":
+                largs.append("(0, m, 0)")
+            else:
+                return self.skipped.append(lp.sig)
+        b += call(lp.action, largs, "_ret")
+        b += A("lea.label_operand_gives_the_labels_offset", f"{V}::spec_get16(&{V}::regs(&vm), in_k) == in_off")
+        b += f"        let mut exp = old;\n        {V}::spec_set16(&mut exp, in_k, {V}::spec_get16(&{V}::regs(&vm), in_k));\n"
+        e, cl = epilogue("P", [], "")
+        h = H("h_lea__word_label", lp.sig + "  [operand: data label at DS:offset]", ["C04", "C09"], "P",
+              b + e + '        kani::cover!(true, "reachable");\n', ["lea.label_operand_gives_the_labels_offset"] + cl,
+              replay={"kind": "l3", "shape": "lea_label"})
+        h.group = "lea"
+        self.out.append(h)
+
     # ---- driver ------------------------------------------------------------------------------------
     def run(self):
         self.ADDR_NTS = self.find_addr_nts()
         lea_prods = self.by_nt.get("lea", [])
+        for lp in lea_prods:
+            if "word_label" in lp.syms:
+                self.lea_label(lp)
+            elif "memory_addr" not in lp.syms:
+                self.skipped.append(lp.sig)
         for p in self.prods:
             nt = p.nt
             if nt == "binary_arithmetic":
